@@ -166,6 +166,22 @@ def _quant(E, node, st):
             seq = E.list_seq(s, seqv) if seqv.kind.tag == "list" else seqv.t
             rng = z3.And(i >= 0, i < z3.Length(seq))
             elemv = V(Kind("tuple"), (V(INT, i), E.elem(seqv.kind[1], seq[i])))
+        elif it.kind.tag in ("dict", "odict"):
+            # all(P(k) for k in d): the bound variable ranges over the keys
+            kk = it.kind[1]
+            kv = z3.Const(fresh_name("qk"), sort_of(kk))
+            rng = E.dict_has(s, it, V(kk, kv))
+            base = s.assume(rng)
+            a = E.assign(base, g.target, V(kk, kv))
+            if len(a) != 1 or a[0].tag != "ok":
+                raise Unsupported("quantifier target")
+            body = gen.elt
+            for cond in g.ifs:
+                body = ast.BoolOp(op=ast.Or(), values=[ast.UnaryOp(op=ast.Not(), operand=cond), body]) if is_all else ast.BoolOp(op=ast.And(), values=[cond, body])
+            b = E.merged_bool(body, a[0].st)
+            if is_all:
+                return [Out("ok", s, vbool(z3.ForAll([kv], z3.Implies(rng, b))))]
+            return [Out("ok", s, vbool(z3.Exists([kv], z3.And(rng, b))))]
         else:
             raise Unsupported("quantifier over %s" % (it.kind,))
         base = s.assume(rng)
@@ -718,6 +734,11 @@ def havoc(E, st, locs, env, old_st):
             for k in ks:
                 for key, srt in E.field_keys(node.attr, k):
                     s.heap[key] = z3.Store(E.arr(s, key, z3.IntSort(), srt), r, z3.Const(fresh_name("hv_" + node.attr), srt))
+        elif isinstance(node, ast.Call) and isinstance(node.func, ast.Name) and node.func.id == "LISTS":
+            # the contents of every list of this element kind (coarse frame)
+            k = parse_kind(ast.unparse(node.args[0]))
+            key = E.lkey(k)
+            s.heap[key] = z3.Array(fresh_name(key.replace("|", "/")), z3.IntSort(), z3.SeqSort(sort_of(k)))
         elif isinstance(node, ast.Call) and isinstance(node.func, ast.Name) and node.func.id == "ITER":
             # the position of an iterator (never moves backwards, never beyond the end)
             from . import pymodel
